@@ -88,6 +88,39 @@ CHECKS.update({
          'DESIGN.md 5.9, 6/C18'),
 })
 
+CHECKS.update({
+ 'C11': (True, 'model_checking',
+         'TLA+ reference semantics (Lvs, LvsTree) checked by TLC; TLC-enumerated schemas/trees replayed on compile_lvs/Checker; recorded match results judged three-way by TLC (LvsJudge)',
+         'TLC checks that the explicit state machine of Checker._match yields exactly what the recursive reading of the binary format yields, on every sane tree <=4 nodes x name <=3 x carried context. TLC also enumerates an exhaustive family of small schemas with Lvs!Match for all names, which the real compile_lvs + Checker.match (directly and after save/load) must reproduce. For seeded generated schemas (repeated rule references, redefinitions, temporary rules and patterns, constrained temporaries, multi-option and multi-set constraints, user functions) TLC judges Lvs!Match = LvsTree!TreeMatch(compiled model) = recorded result for every name up to length 4 over an alphabet hitting every literal plus fresh components.',
+         'Trusted: TLC, the JSON dump of the model, the harness generator. Lvs.tla is written from lvs.rst only. Bounded: names <=4 over <=5 symbols, schemas <=6 rules; $eq_type only with literal arguments. Constraints on patterns outside the constraining rule expansion are read as vacuous.',
+         'DESIGN.md 5.5, 6/C11'),
+ 'C12': (True, 'model_checking',
+         'TLA+ Check/CheckYes reference evaluated by TLC on enumerated and recorded (pkt,key) pairs; Checker._match-with-carried-context machine model-checked against the documented walk',
+         'TLC computes Lvs!Check for all 1,600 name pairs of an enumerated small-schema family, and the real Checker.check (direct and reloaded) is run on every pair. For generated schemas with signing chains, alternatives, shared patterns and constraints on shared patterns, TLC judges Lvs!Check = LvsTree!TreeCheck = recorded answer on all pairs of short names and sampled pairs of longer ones. The same run checks the corollary yes => the key matches a rule, and that a trailing implicit-digest component on either side is ignored.',
+         'Trusted and bounded as C11. Pairs are exhaustive for names <=2 (<=3 on every 10th schema in thorough) and sampled with a bias to matching names beyond.',
+         'DESIGN.md 5.5, 6/C12'),
+ 'C13': (True, 'model_checking',
+         'TLC liveness/safety on the Checker._match state machine over enumerated sane and corrupted trees; WellFormed/Sane reference operators judging recorded compile/load outcomes of injected schemas and corrupted models; settrace step budget',
+         'TLC proves <>Done, a step bound and no-stall for the _match machine on all sane trees <=4 nodes, and termination on every single parent-link corruption whenever the documented rules hold and the root has no parent. TLC-enumerated ill-formed schemas and corrupted trees are executed on compile_lvs/Checker/Checker.load. For generated schemas, every injected static error (17 kinds x every position) and every single-field corruption of the compiled binary model (version, node id, parent, destination, signer, option shape, missing tag) is judged by TLC with WellFormed and Sane. Every query on every accepted model runs under a step budget derived from the spec bound.',
+         'Sane is read over nodes reachable from the root. No-self-signing is read coarsely, so only clearly acyclic schemas must be accepted. Non-termination is judged by a sys.settrace line budget of 100 lines per spec-allowed iteration.',
+         'DESIGN.md 5.5, 6/C13'),
+ 'C14': (True, 'model_checking',
+         'TLA+/TLC model checking of TrustChain + spec-to-code graph walk (belief-set conformance) on lvs_validator over materialised certificate worlds + code-to-spec trace validation (TrustChainTrace)',
+         'Exhaustive model checking of an implementation-shaped TLA+ model of lvs_validator/CascadeChecker (schema check per link, anchor / per-instance key cache / fetch, signature verification, verdict) over all certificate hierarchies of depth 1..4 with one deviation at each link and all orders and cross-instance interleavings of up to 3 validations by two instances with good and bad anchors: verdict = ChainExists (declarative form checked equal to the key-locator walk), InstanceIndependent, ConstructorRefuses, termination; bound to the code by materialising every world with real EC/RSA/Ed25519 keys, real certificates and a compiled LVS schema and walking the state graph on lvs_validator over a virtual face with a producer that serves, Nacks or drops certificate Interests, and by TLC trace validation of random certificate graphs with 4 instances and 10 packets.',
+         'Crypto abstract in the spec (a signature verifies iff made by the key the next certificate carries; forged = one flipped bit); names identify certificates; one validation at a time per instance, interleaving across instances; validity periods and revocation out of scope; schema relation of the generated names asserted equal to Checker.check on every materialised world.',
+         'DESIGN.md 5.6, 6/C14'),
+ 'C15': (True, 'model_checking',
+         'Explicit TLA+ specification of KeychainSqlite3+TpmFile (sqlite connection view vs committed DB, trigger-maintained default flags, operations as step programs with a fault point at every tpm/DB step, signer cache, close/reopen) model-checked by TLC; TLC state-graph transition cover replayed on the real keychain with proxy fault injection and compared through the public Mapping API; seeded random histories recorded from the real code and judged by TLC (KeychainTrace)',
+         'TLC exhaustively checks mapping-view consistency, at-most-one / default-when-populated, delete cascades (incl. private key files), signer-matches-key, no-signer-for-deleted-key and retry-after-failure on all histories over 2 identities x 2 keys x 2 certificates: depth 8 without faults, depth 7 with one injected fault, depth 5 with any number of faults (quick: 6 / - / 4), close/reopen anywhere. Every transition of the TLC graph out of states within 2 calls (quick: 1) plus a sample of the next layer is replayed on a real KeychainSqlite3+TpmFile and compared after each step; 1000 (100) random 40-call histories over 4 identities with faults are accepted by the spec with the invariants evaluated on every state.',
+         'Depth with faults is below the planned 8 (6) because state count grows about 7x per call. A storage fault is a step raising without effect; sqlite power-loss consistency and other Tpm back-ends are not covered. Fault points are counted as the n-th DB/tpm call.',
+         'DESIGN.md 5.7, 6/C15'),
+ 'C17': (True, 'model_checking',
+         'TLA+/TLC model checking of NfdReg + spec-to-code graph walk (belief-set conformance) on appv2.NDNApp+NfdRegister and legacy NDNApp under a scripted clock + code-to-spec trace validation (NfdRegTrace); parse_response judged against a TLA+ reference (NfdRegResp)',
+         'Exhaustive model checking of an implementation-shaped TLA+ model of both registration front-ends (semaphore, timestamp guard, clock free between any two reads, 8 forwarder reply kinds, declared routes over reconnects) for OneAtATime, TsStrictlyIncreasing, SuccessIff200, NeverRaises, ExactlyOneCommand, RoutesOncePerConnection; bound to the code by replaying transition-cover stimulus sequences of the state graphs on both front-ends under a scripted clock and by TLC trace validation of random 8-call schedules; every command Interest decoded and its digest/signature recomputed by an independent strict TLV reader; parse_response judged against a TLA+ reference on TLC-enumerated and random ControlResponses.',
+         'Bounded: <=3 concurrent calls (A/B), 8 (C); clock 0..5; Disconnect only when idle; a silent forwarder only with one command in flight; wall clock assumed monotone; v2 validation failure injected by substituting the validator at NDNApp.express.',
+         'DESIGN.md 5.8, 6/C17'),
+})
+
 NOT_YET = {}
 
 
